@@ -851,3 +851,98 @@ Example C06_tr_delete_runs :
   CLiteExt.callx (TrExCmds.log_ext 3 []) GenCFuncs.cprog 100 11 GenCFuncs.F_ec_delete
     [CLite.VPtr (S bl) 0; CLite.VPtr (S (S bl)) 0; CLite.VPtr (S (S (S bl))) 0; CLite.VInt 0] (TrExCmds.cmd_mem 5 0 [50; 44; 51] [100] []) = CLite.Err CLite.EUndef.
 Proof. exact TrExCmds.run_delete_examples. Qed.
+
+(* satisfiable: the memory TrExCmds.cmd_mem 5 0 addr cmd arg (five lines, current line 0, no marks) represents the five-line state TrExCmds.st5 for
+   every address the run examples use, and the logging table oracle is linked with ex_zero *)
+Example C06_tr_cmd_pre_nonvacuous : forall cmd arg,
+  let bl := length GenCFuncs.cglobals in
+  Forall (fun a : bytes => TrExCmds.cmd_pre (TrExCmds.cmd_mem 5 0 (map Z.of_N a) cmd arg) TrExCmds.st5 (S bl) bl a
+                             (CLiteProps.upd GenCFuncs.gb_bufs TrExAddr.BUFS_LB (CLite.VPtr bl 0)) (TrExAddr.lbuf_blk 5))
+         [[50; 44; 51]; [37]; [52; 44; 53]; [48]; []; [36]]%N /\
+  (forall n cp, TrExCmds.zero_linked (TrExCmds.log_ext n cp)) /\ GenCFuncs.G_xrow <> S bl /\ GenCFuncs.G_xrow <> bl.
+Proof. exact TrExCmds.cmd_pre_example. Qed.
+
+(* y.  The guard of d; then lbuf_cp(xb, beg, end) -> buf, reg_put(REG(arg), buf, 1), free(buf); the buffer is not touched, xrow is what ex_region left. *)
+Theorem C06_tr_ec_yank_entry : forall ext fuel D a0 a1 a2 a3 m,
+  CLiteExt.callx ext GenCFuncs.cprog fuel (S D) GenCFuncs.F_ec_yank [a0; a1; a2; a3] m = TrExCmds.ec_yank_run ext fuel D a0 a1 a2 a3 m CLite.VUndef.
+Proof. exact TrExCmds.ec_yank_entry. Qed.
+Print Assumptions C06_tr_ec_yank_entry.
+Theorem C06_tr_ec_yank : forall ext fuel rvalid rfind (st : st) m bs bl s gbufs lblk e0 d,
+  TrExCmds.cmd_pre m st bs bl s gbufs lblk -> GenCFuncs.G_xrow <> bs -> GenCFuncs.G_xrow <> bl ->
+  TrExCmds.zero_linked ext -> TrExAddr.int_ok e0 -> (2 * S (length s) <= fuel)%nat ->
+  forall vcmd ba arg vtxt, CLiteProps.str_at m ba arg -> nonul arg -> ba <> GenCFuncs.G_xrow ->
+  let M := ec_yank rvalid rfind s arg st in
+  let R := ex_region rvalid rfind s st in
+  let bb := length m in let be := S (length m) in let D := S (S (S (S d))) in
+  exists m1,
+    CLiteExt.callx ext GenCFuncs.cprog fuel D GenCFuncs.F_ex_region [CLite.VPtr bs 0; CLite.VPtr bb 0; CLite.VPtr be 0]
+      (TrExCmds.frame_mem m CLite.VUndef (CLite.VInt e0)) = CLite.Ok (CLite.VInt (CLite.b2z (fst (fst (fst R)))), m1) /\
+    CLiteProps.cell_at m1 GenCFuncs.G_xrow (xrow (fst M)) /\ lb (fst M) = lb st /\
+    (snd M <> 0 ->
+       TrExCmds.ec_yank_run ext fuel D (CLite.VPtr bs 0) vcmd (CLite.VPtr ba 0) vtxt m (CLite.VInt e0) = CLite.Ok (CLite.VInt (snd M), m1) /\ snd M = 1) /\
+    (snd M = 0 -> forall pb m2 u m3 c blk,
+       ext GenCFuncs.X_lbuf_cp [CLite.VPtr bl 0; CLite.VInt (snd (fst (fst R))); CLite.VInt (snd (fst R))] m1 = CLite.Ok (CLite.VPtr pb 0, m2) ->
+       ext GenCFuncs.X_reg_put [CLite.VInt (Z.of_N (REG arg)); CLite.VPtr pb 0; CLite.VInt 1] m2 = CLite.Ok (u, m3) ->
+       nth_error m3 pb = Some (c :: blk) ->
+       TrExCmds.keeps [GenCFuncs.G_bufs; bb; be] m1 (CLiteProps.upd m3 pb []) ->
+       TrExCmds.ec_yank_run ext fuel D (CLite.VPtr bs 0) vcmd (CLite.VPtr ba 0) vtxt m (CLite.VInt e0) = CLite.Ok (CLite.VInt 0, CLiteProps.upd m3 pb [])).
+Proof. exact TrExCmds.tr_ec_yank. Qed.
+Print Assumptions C06_tr_ec_yank.
+
+(* a i c.  b' = TrExCmds.ins_b, e' = TrExCmds.ins_e: the positions the model's ec_insert edits at (C06_tr_ins_positions): `a` moves beg behind a
+   NON-EMPTY range that does not end the buffer's index space (so 0a, whose range (0,0) is empty, inserts before the first line: fix e93d764),
+   `i` and `a` replace nothing (end' = beg'), `c` replaces [beg, end).  An address that ex_region rejects is accepted when it is address 0
+   (beg = end = 0, fix 6c95ca8: 0a on the empty buffer).  lbuf_edit(xb, txt, b', e') is the only oracle call; it is made in the memory where
+   the locals beg and end hold b' and e'; afterwards xrow = MAX(0, MIN(len' - 1, e' + len' - len - 1)) = the model's current line (fix 7b90d84:
+   0 and not -1 when nothing was added at the top).  txt is the model's text block (None = no block): the pointer vtxt is handed to the oracle
+   as it came, and the hypothesis about the oracle is that the buffer it leaves has the length of the model's buffer after the model's edit. *)
+Theorem C06_tr_ec_insert_entry : forall ext fuel D a0 a1 a2 a3 m,
+  CLiteExt.callx ext GenCFuncs.cprog fuel (S D) GenCFuncs.F_ec_insert [a0; a1; a2; a3] m = TrExCmds.ec_insert_run ext fuel D a0 a1 a2 a3 m CLite.VUndef.
+Proof. exact TrExCmds.ec_insert_entry. Qed.
+Print Assumptions C06_tr_ec_insert_entry.
+Theorem C06_tr_ins_positions : forall rvalid rfind (st : st) s cmd,
+  let R := ex_region rvalid rfind s st in let b := snd (fst (fst R)) in let e := snd (fst R) in
+  TrExCmds.ins_b rvalid rfind st s cmd = (if (hd0 cmd =? 97)%N && (b <? e) && (b + 1 <=? slen st) then b + 1 else b) /\
+  TrExCmds.ins_e rvalid rfind st s cmd = (if (hd0 cmd =? 99)%N then e else TrExCmds.ins_b rvalid rfind st s cmd).
+Proof. exact TrExCmds.ins_positions. Qed.
+Theorem C06_tr_ec_insert : forall ext fuel rvalid rfind (st : st) m bs bl s gbufs lblk e0 d,
+  TrExCmds.cmd_pre m st bs bl s gbufs lblk -> GenCFuncs.G_xrow <> bs -> GenCFuncs.G_xrow <> bl ->
+  TrExAddr.int_ok e0 -> (2 * S (length s) <= fuel)%nat ->
+  forall bc cmd varg vtxt txt, CLiteProps.str_at m bc cmd -> nonul cmd -> bc <> GenCFuncs.G_xrow -> vtxt <> CLite.VUndef ->
+  let M := ec_insert rvalid rfind s cmd txt st in
+  let R := ex_region rvalid rfind s st in
+  let b' := TrExCmds.ins_b rvalid rfind st s cmd in let e' := TrExCmds.ins_e rvalid rfind st s cmd in
+  let bb := length m in let be := S (length m) in let D := S (S (S (S d))) in
+  exists m1,
+    CLiteExt.callx ext GenCFuncs.cprog fuel D GenCFuncs.F_ex_region [CLite.VPtr bs 0; CLite.VPtr bb 0; CLite.VPtr be 0]
+      (TrExCmds.frame_mem m CLite.VUndef (CLite.VInt e0)) = CLite.Ok (CLite.VInt (CLite.b2z (fst (fst (fst R)))), m1) /\
+    (snd M <> 0 ->
+       TrExCmds.ec_insert_run ext fuel D (CLite.VPtr bs 0) (CLite.VPtr bc 0) varg vtxt m (CLite.VInt e0) = CLite.Ok (CLite.VInt (snd M), m1) /\
+       snd M = 1 /\ CLiteProps.cell_at m1 GenCFuncs.G_xrow (xrow (fst M)) /\ lb (fst M) = lb st) /\
+    (snd M = 0 -> lb (fst M) = lbuf_edit txt (Z.to_nat b') (Z.to_nat e') (lb st) /\ forall u' m5 x5,
+       ext GenCFuncs.X_lbuf_edit [CLite.VPtr bl 0; vtxt; CLite.VInt b'; CLite.VInt e']
+           (CLiteProps.upd (CLiteProps.upd m1 bb [CLite.VInt b']) be [CLite.VInt e']) = CLite.Ok (u', m5) ->
+       nth_error m5 be = Some [CLite.VInt e'] -> TrExCmds.len_view m5 bl (slen (fst M)) -> CLiteProps.cell_at m5 GenCFuncs.G_xrow x5 ->
+       TrExAddr.int_ok (e' + slen (fst M)) ->
+       TrExCmds.ec_insert_run ext fuel D (CLite.VPtr bs 0) (CLite.VPtr bc 0) varg vtxt m (CLite.VInt e0)
+       = CLite.Ok (CLite.VInt 0, CLiteProps.upd m5 GenCFuncs.G_xrow [CLite.VInt (xrow (fst M))])).
+Proof. exact TrExCmds.tr_ec_insert. Qed.
+Print Assumptions C06_tr_ec_insert.
+
+(* the translated ec_insert RUNS (the log shows the one call of lbuf_edit; txt = a pointer, handed on): `0a` on five lines: lbuf_edit(xb, txt, 0, 0),
+   xrow = 0 (fix e93d764); `2a`: (2, 2), xrow = 2; `2,3c` with one line: (1, 3), xrow = 1; `2i`: (1, 1); `a` with an empty block on the empty
+   buffer: (0, 0), xrow = 0 and not -1 (fix 7b90d84); `0a` on the empty buffer (fix 6c95ca8); `7a` on five lines: result 1, no call. *)
+Example C06_tr_insert_runs :
+  let bl := length GenCFuncs.cglobals in
+  let txt := CLite.VPtr (S (S (S bl))) 0 in
+  let run lines newlen addr c :=
+    TrExCmds.show (TrExCmds.ec_insert_run (TrExCmds.log_ext newlen []) 100 10 (CLite.VPtr (S bl) 0) (CLite.VPtr (S (S bl)) 0) (CLite.VInt 0) txt
+                     (TrExCmds.cmd_mem lines 0 addr [c] [120; 10]) (CLite.VInt 0)) (bl + 6) in
+  run 5 6 [48] 97 = Some (CLite.VInt 0, Some [CLite.VInt 0], [[CLite.VInt 3; CLite.VPtr bl 0; txt; CLite.VInt 0; CLite.VInt 0]]) /\
+  run 5 6 [50] 97 = Some (CLite.VInt 0, Some [CLite.VInt 2], [[CLite.VInt 3; CLite.VPtr bl 0; txt; CLite.VInt 2; CLite.VInt 2]]) /\
+  run 5 4 [50; 44; 51] 99 = Some (CLite.VInt 0, Some [CLite.VInt 1], [[CLite.VInt 3; CLite.VPtr bl 0; txt; CLite.VInt 1; CLite.VInt 3]]) /\
+  run 5 6 [50] 105 = Some (CLite.VInt 0, Some [CLite.VInt 1], [[CLite.VInt 3; CLite.VPtr bl 0; txt; CLite.VInt 1; CLite.VInt 1]]) /\
+  run 0 0 [] 97 = Some (CLite.VInt 0, Some [CLite.VInt 0], [[CLite.VInt 3; CLite.VPtr bl 0; txt; CLite.VInt 0; CLite.VInt 0]]) /\
+  run 0 1 [48] 97 = Some (CLite.VInt 0, Some [CLite.VInt 0], [[CLite.VInt 3; CLite.VPtr bl 0; txt; CLite.VInt 0; CLite.VInt 0]]) /\
+  run 5 5 [55] 97 = Some (CLite.VInt 1, Some [CLite.VInt 0], []).
+Proof. exact TrExCmds.run_insert_examples. Qed.
